@@ -13,6 +13,7 @@ GROUPS = {
     "recvdest": ["C05"],
     "dil_l2": ["C12"],
     "dil_mid": ["C10", "C13"],
+    "dil_flow": ["C15"],
 }
 
 
